@@ -15,7 +15,7 @@ from asyncsim_watch import cmds as cmdlib
 
 ID = "C20"
 MODULE = "DaliVerif.Props.C20"
-EXES = ["m_watch"]
+EXES = ["m_watch", "m_cmd"]
 GEN = True
 THEOREMS = ["watch_refines", "each_forward_frame_once_in_order", "devicetype_only_from_immediate_predecessor",
             "query_paired", "query_unanswered_on_forward", "twice_good_iff_identical_repeat_in_time",
@@ -1046,6 +1046,77 @@ def two_buses_suite(ctx, corr, ids, spec_timeout_s):
     corr.count("two_tridonic_lines", n)
 
 
+def standard_rows_suite(ctx, corr):
+    """'Decoded in context, paired up' against the STANDARD's tables (the 329 transcribed rows of Spec/IEC62386, the
+    same the C03 theorems are about), not against the library's own decoding: the frame of every row with a
+    representative destination / numeric operand is observed on a Tridonic gateway - twice 30 ms apart when the
+    standard says the command is sent twice, followed by a backward frame when it says the command is answered,
+    after its EnableDeviceType when it belongs to a device type - and subscribers must be told: ONE report for the
+    command, with a response exactly when the standard says it is a query, carrying that backward frame.
+    (Strengthening after seeded round 7: a decoder that no longer recognises a command makes the watch report a
+    send-twice command twice and drop a query's answer, consistently with its own idea of the frame.)"""
+    from props import cmdcommon as cc2
+    rows = cc2.run_model("m_cmd", ["spec rows"])[0].split()
+    info = cc2.run_model("m_cmd", ["spec row " + q for q in rows])
+    reqs, meta = [], []
+    for q, line in zip(rows, info):
+        if line == "none":
+            continue
+        f = line.split()
+        fam, hasparam, dt, twice = f[1], f[5] == "true", int(f[6]), f[7] == "true"
+        answer = line.split(" answer=")[1] != ""
+        args = {"std": ["gs:5"] + (["3"] if hasparam else []), "dapc": ["gs:5", "100"],
+                "special": (["7"] if hasparam else []), "shortSpecial": ["5"], "initialise": ["5"],
+                "devStd": ["ds:5"], "devInst": ["ds:5", "n:2"], "devSpecial0": [], "devSpecial1": ["7"],
+                "devSpecial2": ["1", "2"]}.get(fam)
+        if args is None:
+            continue
+        reqs.append("spec frame %s %s" % (q, " ".join(args)))
+        meta.append((q, dt, twice, answer))
+    frames = cc2.run_model("m_cmd", reqs)
+    n = 0
+
+    async def one(loop, bits, data, dt, twice, answer):
+        ts = await sim.TriSim().start()
+        got = []
+        ts.d.bus_traffic.register(lambda drv, c, r, e: got.append((len(c.frame), c.frame.as_integer,
+                                                                   None if r is None else r.raw_value, bool(e))))
+        if dt:
+            ts.deliver(raw_of(("fwd", 16, 0xC100 | dt)))
+            await asyncio.sleep(0.004)
+        ts.deliver(raw_of(("fwd", bits, data)))
+        if twice:
+            # the repetition follows the command itself (EnableDeviceType, command, command)
+            await asyncio.sleep(0.03)
+            ts.deliver(raw_of(("fwd", bits, data)))
+        if answer:
+            await asyncio.sleep(0.005)
+            ts.deliver(raw_of(("back", 0x21)))
+        await asyncio.sleep(0.5)
+        await sim.settle(6)
+        return got
+    for (q, dt, twice, answer), fl in zip(meta, frames):
+        if not fl.startswith("ok "):
+            continue
+        bits, data = int(fl.split()[1]), int(fl.split()[2])
+        got = sim.run(one, bits, data, dt, twice, answer)
+        mine = [g for g in got if (g[0], g[1]) == (bits, data)]
+        want = "1 report of the command, %s" % ("with the backward frame 0x21" if answer else "no response")
+        ok = len(mine) == 1 and not mine[0][3] and (
+            (mine[0][2] is not None and mine[0][2].as_integer == 0x21 and not mine[0][2].error) if answer
+            else mine[0][2] is None)
+        if not ok:
+            corr.violate("watch:standard", {"standard row": q, "frame": "%d bits %#x" % (bits, data),
+                                            "device type": dt, "sent twice": twice, "answered": answer},
+                         want, ["%d:%#x resp=%s err=%s" % (g[0], g[1], "-" if g[2] is None else
+                                                            ("%s%d" % ("E" if g[2].error else "", g[2].as_integer)), g[3])
+                                for g in got],
+                         "subscribers are told what the standard says this traffic is")
+        n += 1
+    corr.count("standard_rows_observed", n)
+    corr.exhaustive["every row of the transcribed standard observed on the Tridonic watch"] = True
+
+
 def correspond(ctx, corr):
     import logging
     logging.disable(logging.CRITICAL)
@@ -1088,6 +1159,7 @@ def correspond(ctx, corr):
     registry_suite(ctx, corr, ids)
     no_subscriber_suite(ctx, corr, ids)
     two_buses_suite(ctx, corr, ids, None)
+    standard_rows_suite(ctx, corr)
     seen = set()
     for bits, data, dt, err in DECODE_FAILURES:
         if (bits, dt, err) in seen:
